@@ -40,7 +40,7 @@ package cache
 // fails) removes every such name.
 //@ func (*Cache).trimSubdir
 //@   requires c != nil
-//@   modifies fsExists, failBudget, fdPath, fdMode, fdClosed
+//@   modifies fsExists, failBudget, fdPath, fdMode, fdClosed, gCleanup
 //@   at call os.Remove#1: requires entryName(my_name) && sameStr(name, joinP(subdir, my_name)) && fsExists[name] && fsMtime[name] < tns(cutoff)
 //@   loop 1: invariant -1 <= rangeindex && rangeindex < len(names) && (old(failBudget) == 0 ==> failBudget == 0)
 //@   loop 1: invariant forall K {at(names,K)} :: lo(names) <= K && K <= lo(names) + rangeindex && old(failBudget) == 0 && entryName(at(names,K)) && old(fsExists)[joinP(subdir, at(names,K))] && fsMtime[joinP(subdir, at(names,K))] < tns(cutoff) ==> !fsExists[joinP(subdir, at(names,K))]
